@@ -5,7 +5,10 @@ import json, os
 def design(ctx, thorough):
     ctx.tlc_mc("", "MC_RxPath", "MC_RxPath_thorough.cfg" if thorough else "MC_RxPath.cfg", workers=16, heap="8g")
     ctx.tlc_expect_violation("", "MC_RxPath", "MC_RxPath_Unjudged.cfg",
-                             "outside the judged domain a response delivering nothing gets no final DONE (stale lastPkgRx)",
+                             "pinned bookkeeping: a response delivering nothing after one that ended in a final DONE gets no final DONE (stale lastPkgRx)",
+                             workers=8)
+    ctx.tlc_expect_violation("", "MC_RxPath", "MC_RxPath_HdrOnly_AsIs.cfg",
+                             "pinned code: a header-only packet of a response is delivered as a package and skips the end-of-message handling",
                              workers=8)
     ctx.tlc_expect_violation("", "MC_RxPath", "MC_RxPath_Wedge.cfg",
                              "spec growth: a malformed package is re-parsed with every later packet until the bounded error queue is full and the reader blocks",
